@@ -9,7 +9,7 @@
 import panics
 import vetted
 import common
-from lib import aggregates
+from lib import aggregates, expr_calls
 from props import C13
 
 LEVEL = "other"
@@ -50,6 +50,38 @@ def run(ck, F, E):
     C13.errpos_rules(ck, F, "C05")
     C13.same_text_rule(ck, F, "C05")
     mappable_errors(ck, F)
+    tokens_after_line_number(ck, F)
+
+
+def tokens_after_line_number(ck, F):
+    """"per-line token ranges are ordered and non-overlapping": the analyzer emits the line number as a token of its own
+    (0..end) and tokenizes the rest; every tokenizer it builds over a numbered file line therefore starts after the number --
+    `Tokenizer::new(line, ..).skip_bytes(end)` with `end` from parse_line_number.  A second tokenizer over the same line that
+    starts at column 0 (to keep highlighting a line that failed) emits the number again, overlapping the first token."""
+    SA = "analyzer::source_file_analyzer::SourceFileAnalyzer"
+    n = 0
+    bad = []
+    for p, b in sorted(F.bodies.items()):
+        if b.crate != "abasic_core" or SA + "::" not in p or not b.calls_to("line_number_parser::parse_line_number"):
+            continue
+        pl = b.calls_to("line_number_parser::parse_line_number")
+        skips = [c for c in b.calls() if c.callee.endswith("Tokenizer::skip_bytes") or c.callee.split("::")[-1] == "skip_bytes"]
+        for c in [c for hb in [b] + [x for q, x in F.bodies.items() if q.startswith(p + "::{closure")] for c in hb.calls()
+                  if c.callee.endswith("tokenizer::Tokenizer::new")]:
+            n += 1
+            ok = False
+            for sk in skips:
+                e0 = b.expr(sk.args[0], depth=30)
+                e1 = b.expr(sk.args[1], depth=30) if len(sk.args) > 1 else ("?",)
+                if any(len(x) > 3 and x[3] is c for x in expr_calls(e0)) and any(len(x) > 3 and x[3] in pl for x in expr_calls(e1)):
+                    ok = True
+            if not ok:
+                bad.append(p.split("::")[-1])
+    ck.floor("C05.tokenizers built over numbered file lines", n, 1)
+    ck.require(not bad, "C05:TOKENS:tokenizer-starts-after-the-line-number", "mappable diagnostics",
+               "every tokenizer of the per-line analysis skips the line number parse_line_number found",
+               "%s builds a tokenizer over a numbered line without skipping its line number: the number is emitted twice and the "
+               "token ranges of the line overlap" % ", ".join(sorted(set(bad))))
 
 
 def mappable_errors(ck, F):
